@@ -47,7 +47,7 @@ PlainTypes == << [schema |-> "", name |-> "int", suffix |-> ""],
                  [schema |-> "", name |-> "INTEGER", suffix |-> ""] >>
 Texts      == <<"a note", "it's", "say \"hi\"", "caf~u00e9~ ~u4e2d~", "x: y, [z] {w} (v)", "// not a comment",
                 "#tag /* x */", "back`tick", "back\\slash", "line1\nline2", "first\n  indented\nlast", "Table t { id int }",
-                "100%", "a\n\nb", "'''", "nb~u00a0~sp ~u2603~", "two\n\n\nempty lines", "blank-only\n  \nline inside">>
+                "100%", "a\n\nb", "'''", "nb~u00a0~sp ~u2603~", "two\n\n\nempty lines", "blank-only\n  \nline inside", "see Note { and Table t { inside">>
 OneLiners  == <<"a note", "it's", "say \"hi\"", "caf~u00e9~", "x: y, [z] {w}", "// no", "back\\slash", "#1", "'''", "">>
 Defaults   == << [k |-> "none", v |-> ""], [k |-> "none", v |-> ""], [k |-> "int", v |-> "0"], [k |-> "int", v |-> "42"],
                  [k |-> "float", v |-> "1.5"], [k |-> "float", v |-> "0.0"], [k |-> "bool", v |-> "true"],
